@@ -175,7 +175,7 @@ extern bg_vec_sz bg_scratch_vec_sz;
     struct {                                                                  \
       bg_bool hasPQ, hasQP; /* keys (G_P,G_Q), (G_Q,G_P); QP unused if P==Q */\
       bg_size restCount;    /* entries under other keys                   */  \
-      long restSum;         /* sum of the values under other keys, except a */\
+      bg_size restSum;      /* sum (mod 2^64) of the values under other keys, except a */\
                             /* cell checked out for writing (numeric labels)*/\
     } s;                                                                      \
     T *valPQ, *valQP;     /* separate objects, see bg_adj                  */ \
